@@ -2,7 +2,7 @@
    The stop-status functions are GENERATED from the C++ on every run (gen/StopChain.v). *)
 From Coq Require Import Reals List ZArith Bool Arith Floats Lra.
 From Alpaqa Require Import Num NumR NumF Vec Prox SolverStatus SolverKernels StopChain StopChainProofs
-     SolverKernelsProofs LoopSkeleton.
+     SolverKernelsProofs LoopSkeleton PanocOcp KernelsGen KernelsGenEq.
 Import ListNotations.
 
 Section Chain.
@@ -147,6 +147,100 @@ Theorem C06_eps_matches_doc_Ipopt : forall lb ub γ p x xh yh grad gradh,
   crit_eps Ipopt lb ub [] p γ x xh yh grad gradh = crit_doc Ipopt lb ub γ x xh yh grad gradh.
 Proof. exact crit_matches_doc_Ipopt. Qed.
 Print Assumptions C06_eps_matches_doc_Ipopt.
+
+(* ======================================================================================================================
+   The same statements for the criteria / counters GENERATED from the C++ on every run (gen/KernelsGen.v):
+   g_crit_eps is the `switch (crit)` of PANOCHelpers::calc_error_stop_crit, case by case; g_ocp_crit PANOC-OCP's local copy;
+   g_<solver>_np_update the no-progress statement of each solver loop. *)
+Theorem C06_gen_crit_eps_is_model : forall c lb ub l1 p (γ : R) x xh yh grad gradh,
+  g_crit_eps c lb ub l1 p γ x xh yh grad gradh = crit_eps c lb ub l1 p γ x xh yh grad gradh.
+Proof. intros. apply gen_crit_eps_eq. Qed.
+Theorem C06_gen_crit_needs_gradh_is_model : forall c, g_crit_needs_gradh c = crit_needs_gradh c.
+Proof. exact gen_crit_needs_gradh_eq. Qed.
+Theorem C06_gen_ocp_crit_is_model : forall c Ulb Uub N (γ : R) u g p, g_ocp_crit c Ulb Uub N γ u g p (vsqnorm p) = ocp_crit c Ulb Uub N γ u g p.
+Proof. exact gen_ocp_crit_eq. Qed.
+Theorem C06_gen_eps_matches_doc_ApproxKKT : forall lb ub γ x grad gradh yh,
+  let step := proj_grad_step lb ub γ x grad in
+  length x = length (snd (fst step)) ->
+  g_crit_eps ApproxKKT lb ub [] (snd (fst step)) γ x (fst (fst step)) yh grad gradh
+  = crit_doc ApproxKKT lb ub γ x (fst (fst step)) yh grad gradh.
+Proof. exact gen_crit_matches_doc_ApproxKKT. Qed.
+Theorem C06_gen_eps_matches_doc_ApproxKKT2 : forall lb ub γ x grad gradh yh,
+  let step := proj_grad_step lb ub γ x grad in
+  length x = length (snd (fst step)) ->
+  g_crit_eps ApproxKKT2 lb ub [] (snd (fst step)) γ x (fst (fst step)) yh grad gradh
+  = crit_doc ApproxKKT2 lb ub γ x (fst (fst step)) yh grad gradh.
+Proof. exact gen_crit_matches_doc_ApproxKKT2. Qed.
+Theorem C06_gen_eps_matches_doc_ProjGradNorm : forall lb ub γ x grad gradh yh,
+  let step := proj_grad_step lb ub γ x grad in
+  g_crit_eps ProjGradNorm lb ub [] (snd (fst step)) γ x (fst (fst step)) yh grad gradh
+  = crit_doc ProjGradNorm lb ub γ x (fst (fst step)) yh grad gradh.
+Proof. exact gen_crit_matches_doc_ProjGradNorm. Qed.
+Theorem C06_gen_eps_matches_doc_ProjGradNorm2 : forall lb ub γ x grad gradh yh,
+  let step := proj_grad_step lb ub γ x grad in
+  g_crit_eps ProjGradNorm2 lb ub [] (snd (fst step)) γ x (fst (fst step)) yh grad gradh
+  = crit_doc ProjGradNorm2 lb ub γ x (fst (fst step)) yh grad gradh.
+Proof. exact gen_crit_matches_doc_ProjGradNorm2. Qed.
+Theorem C06_gen_eps_matches_doc_ProjGradUnitNorm : forall lb ub γ x grad gradh yh,
+  let step := proj_grad_step lb ub γ x grad in
+  g_crit_eps ProjGradUnitNorm lb ub [] (snd (fst step)) γ x (fst (fst step)) yh grad gradh
+  = crit_doc ProjGradUnitNorm lb ub γ x (fst (fst step)) yh grad gradh.
+Proof. exact gen_crit_matches_doc_ProjGradUnitNorm. Qed.
+Theorem C06_gen_eps_matches_doc_ProjGradUnitNorm2 : forall lb ub γ x grad gradh yh,
+  let step := proj_grad_step lb ub γ x grad in
+  g_crit_eps ProjGradUnitNorm2 lb ub [] (snd (fst step)) γ x (fst (fst step)) yh grad gradh
+  = crit_doc ProjGradUnitNorm2 lb ub γ x (fst (fst step)) yh grad gradh.
+Proof. exact gen_crit_matches_doc_ProjGradUnitNorm2. Qed.
+Theorem C06_gen_eps_matches_doc_FPRNorm : forall lb ub γ x grad gradh yh, γ <> 0 ->
+  let step := proj_grad_step lb ub γ x grad in
+  g_crit_eps FPRNorm lb ub [] (snd (fst step)) γ x (fst (fst step)) yh grad gradh
+  = crit_doc FPRNorm lb ub γ x (fst (fst step)) yh grad gradh.
+Proof. exact gen_crit_matches_doc_FPRNorm. Qed.
+Theorem C06_gen_eps_matches_doc_FPRNorm2 : forall lb ub γ x grad gradh yh, γ <> 0 ->
+  let step := proj_grad_step lb ub γ x grad in
+  g_crit_eps FPRNorm2 lb ub [] (snd (fst step)) γ x (fst (fst step)) yh grad gradh
+  = crit_doc FPRNorm2 lb ub γ x (fst (fst step)) yh grad gradh.
+Proof. exact gen_crit_matches_doc_FPRNorm2. Qed.
+Theorem C06_gen_eps_matches_doc_LBFGSBpp : forall lb ub γ x grad gradh yh,
+  let step := proj_grad_step lb ub γ x grad in
+  g_crit_eps LBFGSBpp lb ub [] (snd (fst step)) γ x (fst (fst step)) yh grad gradh
+  = crit_doc LBFGSBpp lb ub γ x (fst (fst step)) yh grad gradh.
+Proof. exact gen_crit_matches_doc_LBFGSBpp. Qed.
+Theorem C06_gen_eps_matches_doc_Ipopt : forall lb ub γ p x xh yh grad gradh,
+  g_crit_eps Ipopt lb ub [] p γ x xh yh grad gradh = crit_doc Ipopt lb ub γ x xh yh grad gradh.
+Proof. exact gen_crit_matches_doc_Ipopt. Qed.
+Theorem C06_gen_panoc_no_progress_counter_spec : forall np k m (x xn : list R),
+  let np' := g_panoc_np_update np k m x xn in
+  (np' = S np /\ veqb x xn = true) \/ (np' = 0%nat /\ veqb x xn = false) \/ (np' = np /\ np = 0%nat).
+Proof. exact gen_panoc_np_update_spec. Qed.
+Theorem C06_gen_panoc_no_progress_is_model : forall np k m (x xn : list R),
+  Some (g_panoc_np_update np k m x xn) = no_progress_update np k m (veqb x xn).
+Proof. exact gen_panoc_np_update_eq. Qed.
+Theorem C06_gen_zerofpr_no_progress_counter_spec : forall np k m (x xn : list R),
+  let np' := g_zerofpr_np_update np k m x xn in
+  (np' = S np /\ veqb x xn = true) \/ (np' = 0%nat /\ veqb x xn = false) \/ (np' = np /\ np = 0%nat).
+Proof. exact gen_zerofpr_np_update_spec. Qed.
+Theorem C06_gen_zerofpr_no_progress_is_model : forall np k m (x xn : list R),
+  Some (g_zerofpr_np_update np k m x xn) = no_progress_update np k m (veqb x xn).
+Proof. exact gen_zerofpr_np_update_eq. Qed.
+Theorem C06_gen_fista_no_progress_counter_spec : forall np k m (x xn : list R),
+  let np' := g_fista_np_update np k m x xn in
+  (np' = S np /\ veqb x xn = true) \/ (np' = 0%nat /\ veqb x xn = false) \/ (np' = np /\ np = 0%nat).
+Proof. exact gen_fista_np_update_spec. Qed.
+Theorem C06_gen_fista_no_progress_is_model : forall np k m (x xn : list R),
+  Some (g_fista_np_update np k m x xn) = no_progress_update np k m (veqb x xn).
+Proof. exact gen_fista_np_update_eq. Qed.
+Theorem C06_gen_ocp_no_progress_counter_spec : forall np k m (x xn : list R),
+  let np' := g_ocp_np_update np k m x xn in
+  (np' = S np /\ veqb x xn = true) \/ (np' = 0%nat /\ veqb x xn = false) \/ (np' = np /\ np = 0%nat).
+Proof. exact gen_ocp_np_update_spec. Qed.
+Theorem C06_gen_ocp_no_progress_is_model : forall np k m (x xn : list R),
+  Some (g_ocp_np_update np k m x xn) = no_progress_update np k m (veqb x xn).
+Proof. exact gen_ocp_np_update_eq. Qed.
+Print Assumptions C06_gen_crit_eps_is_model.
+Print Assumptions C06_gen_eps_matches_doc_ApproxKKT.
+Print Assumptions C06_gen_eps_matches_doc_Ipopt.
+Print Assumptions C06_gen_panoc_no_progress_counter_spec.
 
 (* non-vacuity *)
 Example C06_nonvacuous :
